@@ -327,7 +327,7 @@ class Runner:
             info["same_output"] = out is st.out[x]
             info["first_state"] = first.state.name
             st.dups.append((x, task, out, job))
-            if registered is job:
+            if registered is job or info["has_future"]:
                 # re-submission accepted (first job was in ERROR): this is now the live job
                 st.jobs[x] = job
                 st.obj[x], st.out[x] = task, out
@@ -432,6 +432,8 @@ class Runner:
                 if f is not None and f.done() else None,
                 "unsatisfied": j.unsatisfied,
             }
+            if f is not None and f.done() and f.exception(0) is not None:
+                jobs[str(x)]["exc_tb"] = short_tb(f.exception(0))
         toks = {}
         for ti, t in sorted(st.toks.items()):
             toks[str(ti)] = {"available": t.available, "total": getattr(t, "total", getattr(t, "count", None))}
@@ -555,4 +557,4 @@ def wmod_abandon():
 
 def short_tb(e):
     tb = traceback.extract_tb(e.__traceback__)
-    return ["%s:%s:%d" % (os.path.basename(f.filename), f.name, f.lineno) for f in tb[-4:]]
+    return ["%s:%s" % (os.path.basename(f.filename), f.name) for f in tb[-5:]]
